@@ -541,6 +541,15 @@ def oracle_line(cfg, op, out):
             fails.append(("cm", "accepts-invalid-end", "checkMotion returned true although s2 itself is invalid"))
         if v and space in ("proj", "atlas"):
             s1 = fl(t[off:off + n])
+        gl = [e for e in evs if e[0] == "G" and e[3] == "1"]
+        if v and gl:
+            # a motion reported valid: every state of the traversal the validator itself made (the G record) is valid —
+            # except s1 itself (index 0), which MotionValidator::checkMotion is entitled to assume valid
+            bad_idx = [j for j, x in enumerate(gl[0][4]) if j >= 1 and not valid_py(cfg, fl(x))]
+            if bad_idx:
+                last_only = bad_idx == [len(gl[0][4]) - 1] and len(gl[0][4]) >= 2
+                fails.append(("cm", "tb-last-traversal-state-unvalidated" if (space == "tb" and last_only) else "traversal-state-invalid",
+                              "checkMotion returned true although state(s) %s of its own %d-state traversal are invalid" % (bad_idx[:4], len(gl[0][4]))))
         if t[0] == "cm2":
             i = head.index("first=")
             first = fl(head[i + 1:i + 1 + n])
